@@ -578,6 +578,8 @@ def _rank_domain(tier):
             pmaps = list(itertools.product(*[range(0, i + 1) for i in range(n)]))
             if n > 3:
                 pmaps = [tuple([0] * n), tuple(range(n))]      # all children of the base / one chain
+            elif not thorough:
+                pmaps = [(0, 0, 0), (0, 1, 2), (0, 1, 1)]       # star / chain / two children of c1
             for pm in pmaps:
                 for b in range(nst):
                     dom.append(dict(base=b, cands=cands, rank_type='lrt', cutoff=None, penalties=None,
@@ -1074,12 +1076,13 @@ def bounded_rank_models(tier):
     for part in _pool_map(_misc_worker, misc):
         col.merge(part)
     kmax = 4 if tier == 'thorough' else 3
-    extra = ' and of 4 candidates x star/chain parent maps' if kmax > 3 else ''
+    extra = (' and of 4 candidates x star/chain parent maps' if kmax > 3
+             else ' restricted to star / chain / (base, c1, c1) in the quick tier')
     bound = (f'rank_models: base (pheno, 5 result statuses: OFV -10/0/5/NaN ok, -10 failed) + all multisets of <= {kmax} '
              f'candidates from 5 pheno variants (parameter-count differences -1,0,0,+1,+2) x 5 statuses for ofv, '
              f'<= {kmax - 1} for aic and bic fixed/random/iiv, <= 2 for bic mixed, cut-off None/3.84, penalties None/list; lrt: all ordered '
-             f'<= 2 candidates x every parent map x p None/0.05/(0.05,0.01), multisets of 3 candidates x every '
-             f'parent-among-earlier map{extra} (default p-values); '
+             f'<= 2 candidates x every parent map x p None/0.05/(0.05,0.01), multisets of 3 candidates x '
+             f'parent-among-earlier maps{extra} (default p-values); '
              f'strictness ""/AMD default with 6 statuses; calculate_aic/bic on 10 variants x 3 OFVs; lrt functions on all '
              f'25 parent/child pairs x 3 alphas x 25 OFV pairs, best_of_many <= {3 if tier == "thorough" else 2} children '
              f'x 5 OFVs each; is_strictness_fulfilled: all 17 documented atoms x 6 operators on synthetic results grids')
